@@ -208,7 +208,7 @@ func TypeCheck(steps []Step) Typing {
 				return ill(i, "invalid mark name %q", name)
 			}
 			if !cur.IsElement() {
-				unspec(i, "as on %s rows", cur)
+				return ill(i, "as needs a vertex or edge, got %s", cur)
 			}
 			ty.Marks[name] = cur
 		case "select":
